@@ -6,6 +6,10 @@ import Autd3.Lemmas.RtOps6
 import Autd3.Lemmas.RtFoci8
 import Autd3.Lemmas.RtGstm10
 import Autd3.Lemmas.RtMulti
+import Autd3.Lemmas.Rt2Obs
+import Autd3.Lemmas.Rt2SlotEx
+import Autd3.Lemmas.Rt2SlotGain
+import Autd3.Lemmas.Rt2Modes
 /-!
 # C01 — what is sent is what the device holds
 
@@ -539,6 +543,243 @@ theorem gHeld_spelled_out {s0 s' : State} {seg : Nat} {tr : Tr} {rep div mode : 
   · intro m v htr; subst htr; exact h.req
 
 
+/-! ### nothing written elsewhere: the footprint of a whole send
+
+The round-trip theorems above say what the addressed segment holds and that the other segment of the
+*same* resource is untouched.  The theorems below bound everything else, and they hold for **every** run
+of the send loop (`∀ t' s', Sends … → …`, no acceptance hypothesis, any payload content, any size): the
+proofs walk through each handler for an arbitrary payload (`Rt.writeMod_foot`, `writeGain_foot`,
+`writeFociStm_foot`, `writeGainStm_foot`) and through `ecat_recv` and the loop.  `Rt.StmSame s s'` /
+`Rt.ModSame s s'` / `Rt.RestSame s s'`: both memories of the resource, its swap chain, all of its controller
+registers (segment-indexed ones of both segments, request, transition), the CPU copies; phase correction,
+pulse-width table, silencer/debug/state registers and the CPU configuration are equal in `s` and `s'`. -/
+
+/-- the send loop is a function: a datagram sent from `(s, t)` has exactly one outcome, so the facts of the
+`∃`-shaped round-trip theorems and of the `∀`-shaped footprint theorems are about the same final state -/
+theorem sends_deterministic {dg : Dg} {s : State} {t t1 t2 : Tx} {s1 s2 : State}
+    (h1 : Sends dg s t t1 s1) (h2 : Sends dg s t t2 s2) : t1 = t2 ∧ s1 = s2 := Sends_unique h1 h2
+
+/-- **Modulation writes nothing outside the modulation resources**: both STM memories, the STM swap chain,
+every STM register of both segments, phase correction, pulse-width table, silencer and debug registers are
+exactly as before — for every size, every content, accepted or not up to the frame that ends the send -/
+theorem mod_touches_only_modulation (s : State) (t t' : Tx) (s' : State) (hWF : WF s) (ht : TxOK t)
+    (seg : Nat) (tr : Tr) (rep div : Nat) (samples : Array Nat)
+    (h : Sends (.modulation seg tr rep div samples) s t t' s') : StmSame s s' ∧ RestSame s s' :=
+  StmSame_of_foot (mod_send_foot seg tr rep div samples s t t' s' hWF.ctl hWF.flags ht h)
+
+/-- **Gain writes nothing outside the STM resources**, and of those never the sound-speed / focus-count
+registers of either segment -/
+theorem gain_touches_only_stm (s : State) (t t' : Tx) (s' : State) (hWF : WF s) (ht : TxOK t)
+    (seg : Nat) (tr : Tr) (drives : Array Nat) (h : Sends (.gain seg tr drives) s t t' s') :
+    ModSame s s' ∧ RestSame s s' ∧
+      ∀ g, g ≤ 1 → Obs.soundSpeed s' g = Obs.soundSpeed s g ∧ Obs.numFoci s' g = Obs.numFoci s g := by
+  have hf := gain_send_foot seg tr drives s t t' s' hWF.ctl hWF.flags ht h
+  obtain ⟨a, b⟩ := ModSame_of_foot hf TG_sub
+  refine ⟨a, b, fun g hg => ⟨?_, ?_⟩⟩
+  · unfold Obs.soundSpeed; rw [hf.regs _ (by simp only [TG, Cpu.ADDR_STM_SOUND_SPEED0]; omega)]
+  · unfold Obs.numFoci; rw [hf.regs _ (by simp only [TG, Cpu.ADDR_STM_NUM_FOCI0]; omega)]
+
+/-- **FociSTM writes nothing outside the STM resources**; the other segment's sound speed and focus count
+stay (with `fociHeld_spelled_out`: its memory, cycle, division, loop count and mode too) -/
+theorem fociStm_touches_only_stm (s : State) (t t' : Tx) (s' : State) (hWF : WF s) (ht : TxOK t)
+    (n seg : Nat) (hseg : seg ≤ 1) (tr : Tr) (rep div ss : Nat) (records : Array Nat)
+    (h : Sends (.fociStm n seg tr rep div ss records) s t t' s') :
+    ModSame s s' ∧ RestSame s s' ∧
+      Obs.soundSpeed s' (1 - seg) = Obs.soundSpeed s (1 - seg) ∧ Obs.numFoci s' (1 - seg) = Obs.numFoci s (1 - seg) := by
+  have hf := foci_send_foot n seg hseg tr rep div ss records s t t' s' hWF.ctl hWF.flags ht h
+  obtain ⟨a, b⟩ := ModSame_of_foot hf (TF_sub seg hseg)
+  refine ⟨a, b, ?_, ?_⟩
+  · unfold Obs.soundSpeed; rw [hf.regs _ (by simp only [TF, TG, Cpu.ADDR_STM_SOUND_SPEED0]; omega)]
+  · unfold Obs.numFoci; rw [hf.regs _ (by simp only [TF, TG, Cpu.ADDR_STM_NUM_FOCI0]; omega)]
+
+/-- **GainSTM (all three modes) writes nothing outside the STM resources**, and never the sound-speed /
+focus-count registers of either segment -/
+theorem gainStm_touches_only_stm (s : State) (t t' : Tx) (s' : State) (hWF : WF s) (ht : TxOK t)
+    (mode seg : Nat) (tr : Tr) (rep div : Nat) (patterns : Array (Array Nat))
+    (h : Sends (.gainStm mode seg tr rep div patterns) s t t' s') :
+    ModSame s s' ∧ RestSame s s' ∧
+      ∀ g, g ≤ 1 → Obs.soundSpeed s' g = Obs.soundSpeed s g ∧ Obs.numFoci s' g = Obs.numFoci s g := by
+  have hf := gstm_send_foot mode seg tr rep div patterns s t t' s' hWF.ctl hWF.flags ht h
+  obtain ⟨a, b⟩ := ModSame_of_foot hf TG_sub
+  refine ⟨a, b, fun g hg => ⟨?_, ?_⟩⟩
+  · unfold Obs.soundSpeed; rw [hf.regs _ (by simp only [TG, Cpu.ADDR_STM_SOUND_SPEED0]; omega)]
+  · unfold Obs.numFoci; rw [hf.regs _ (by simp only [TG, Cpu.ADDR_STM_NUM_FOCI0]; omega)]
+
+/-- what `StmSame` means for the read-back accessors: every STM observation of both segments is unchanged,
+including the drives computed by `drives_at` for every index -/
+theorem stmSame_spelled_out {s s' : State} (h : StmSame s s') :
+    (∀ g, Obs.stmMem s' g = Obs.stmMem s g) ∧
+    (∀ g, g ≤ 1 → Obs.stmCycle s' g = Obs.stmCycle s g ∧ Obs.stmDiv s' g = Obs.stmDiv s g ∧
+      Obs.stmRep s' g = Obs.stmRep s g ∧ Obs.isStmGainMode s' g = Obs.isStmGainMode s g ∧
+      Obs.soundSpeed s' g = Obs.soundSpeed s g ∧ Obs.numFoci s' g = Obs.numFoci s g ∧
+      ∀ idx, Obs.drivesAt s' g idx = Obs.drivesAt s g idx) ∧
+    Obs.reqStmSeg s' = Obs.reqStmSeg s ∧ Obs.stmTransition s' = Obs.stmTransition s ∧
+    Obs.currentStmSeg s' = Obs.currentStmSeg s ∧ Obs.currentStmIdx s' = Obs.currentStmIdx s := obs_stm_same h
+
+/-- what `ModSame` means for the read-back accessors -/
+theorem modSame_spelled_out {s s' : State} (h : ModSame s s') :
+    (∀ g, Obs.modMem s' g = Obs.modMem s g) ∧
+    (∀ g, g ≤ 1 → Obs.modCycle s' g = Obs.modCycle s g ∧ Obs.modDiv s' g = Obs.modDiv s g ∧
+      Obs.modRep s' g = Obs.modRep s g ∧ Obs.modBuffer s' g = Obs.modBuffer s g) ∧
+    Obs.reqModSeg s' = Obs.reqModSeg s ∧ Obs.modTransition s' = Obs.modTransition s ∧
+    Obs.currentModSeg s' = Obs.currentModSeg s ∧ Obs.currentModIdx s' = Obs.currentModIdx s := obs_mod_same h
+
+/-- what `RestSame` means for the read-back accessors -/
+theorem restSame_spelled_out {s s' : State} (h : RestSame s s') :
+    Obs.phaseCorrection s' = Obs.phaseCorrection s ∧ Obs.pweTable s' = Obs.pweTable s ∧
+    Obs.silencerUpdateRate s' = Obs.silencerUpdateRate s ∧ Obs.silencerCompletionSteps s' = Obs.silencerCompletionSteps s ∧
+    Obs.silencerFixedUpdateRateMode s' = Obs.silencerFixedUpdateRateMode s ∧
+    Obs.debugTypes s' = Obs.debugTypes s ∧ Obs.debugValues s' = Obs.debugValues s ∧
+    Obs.fpgaStateReg s' = Obs.fpgaStateReg s := obs_rest_same h
+
+/-- **nothing padded into view** (Modulation): the played buffer is the user's samples and nothing else — its
+length is the user's length, although the driver pads odd chunks to 16-bit words and the firmware copies
+whole words (the pad byte lands at index `n`, which the cycle register excludes) -/
+theorem mod_nothing_beyond_length {s0 s' : State} {seg : Nat} {tr : Tr} {rep div : Nat} {samples : Array Nat}
+    (h : ModHeld s0 s' seg tr rep div samples) :
+    ∃ buf, Obs.modBuffer s' seg = .ok buf ∧ buf.size = samples.size ∧ Obs.modCycle s' seg = samples.size ∧
+      ∀ i, i < samples.size → rd buf i = rd samples i :=
+  ⟨samples, h.buffer, rfl, h.hcycle, fun _ _ => rfl⟩
+
+/-! ### the second tuple slot
+
+`Rt.sendLoop2` is the send loop of a *pair* of operations on one device: `OperationHandler::pack_op2`
+(`Wire.packOp2`: operation 1 at offset 0, operation 2 at offset = size of operation 1 if it fits), `ecat_recv`
+with the slot-2 offset in the header, until both are done.  Operation 1 is generic: any datagram that is
+done after one frame of `k` bytes (`k` even, room left), whose handler reads only those `k` bytes and accepts,
+leaving the well-formed state `s1`. -/
+
+/-- the executable pair loop is what `Rt.Sends2` abbreviates -/
+theorem sends2_def (dg1 dg2 : Dg) (s : State) (t t' : Tx) (s' : State) :
+    Sends2 dg1 dg2 s t t' s' ↔ ∃ fuel, sendLoop2 fuel (Op.ofDg dg1) (Op.ofDg dg2) s t = some (t', s') := Iff.rfl
+
+/-- once operation 1 is done, the pair loop *is* the single-operation loop of the round-trip theorems -/
+theorem pair_loop_after_first_done (fuel : Nat) (o1 o2 : Op) (s : State) (t : Tx) (h : o1.done = true) :
+    sendLoop2 fuel o1 o2 s t = sendLoop fuel o2 s t := sendLoop2_done1 fuel o1 o2 s t h
+
+/-- driver side, slot 2: a modulation packed at offset `k` carries `min n (min (606 - k) 254)` samples in its
+first frame — the cut points differ from slot 1 (`min n 254`) as soon as `k > 352` -/
+theorem mod_pack_first_slot2 (seg : Nat) (tr : Tr) (rep div : Nat) (samples : Array Nat) (nt : Nat) (b : Array Nat) (k : Nat)
+    (hb : b.size = 622) (hk : k + 18 ≤ 622) (hn : 2 ≤ samples.size) (hn' : samples.size ≤ 65536) :
+    (Op.ofDg (.modulation seg tr rep div samples)).pack nt b k =
+      .ok ({ dg := .modulation seg tr rep div samples, sent := min samples.size (min (606 - k) 254),
+             done := decide (samples.size ≤ min (606 - k) 254) },
+        modFirstPayloadAt b samples k (min samples.size (min (606 - k) 254))
+          (modFlagByte true (decide (samples.size ≤ min (606 - k) 254)) seg tr.isSome) (trMode tr) div rep (trValue tr),
+        16 + ((min samples.size (min (606 - k) 254) + 1) / 2) * 2) :=
+  pack_mod_first_at seg tr rep div samples nt b k hb hk hn hn'
+
+/-- `ecat_recv` on a fresh two-slot frame: both handlers run, the second on `payload[slot2..]` -/
+theorem ecatRecv_two_slot_frame (s : State) (t : Tx) (hid : t.msgId < 128) (hk0 : 0 < t.slot2)
+    (hk : t.slot2 ≤ t.payload.size) (hk16 : t.slot2 < 65536) (hfresh : s.lastMsgId ≠ t.msgId) (s1 s2 : State)
+    (hh1 : handlePayload (pre s t.msgId) t.payload = .ok (s1, Cpu.NO_ERR))
+    (hh2 : handlePayload { s1 with ack := Cpu.NO_ERR } (t.payload.extract t.slot2 t.payload.size) = .ok (s2, Cpu.NO_ERR)) :
+    ecatRecv s t.frame = .ok (fin s2 t.msgId) := ecatRecv_two s t hid hk0 hk hk16 hfresh s1 s2 hh1 hh2
+
+/-- **Modulation round trip in the second slot, every legal size**: with any one-frame operation of `k`
+bytes in slot 1 (`k` even, `k ≤ 604`), the modulation's first chunk travels at offset `k` with the reduced
+capacity, the remaining chunks in slot 1 of the following frames; all frames are acknowledged and the device
+holds exactly what `mod_roundtrip` gives for the modulation sent alone from `s1` (`ModHeld s1 s'`): the
+content that reaches the device does not depend on the slot offset -/
+theorem mod_roundtrip_slot2 (s : State) (t : Tx) (ht : TxOK t) (hf : Fresh s t)
+    (dg1 : Dg) (o1' : Op) (b1 : Array Nat) (k : Nat) (s1 : State)
+    (hnd1 : (Op.ofDg dg1).done = false)
+    (hp1 : (Op.ofDg dg1).pack s.numTr t.payload 0 = .ok (o1', b1, k)) (hd1 : o1'.done = true)
+    (hk : 0 < k ∧ k % 2 = 0 ∧ k + 18 ≤ 622)
+    (hh1 : ∀ b', Keeps k b1 b' → handlePayload (pre s (nextId t)) b' = .ok (s1, Cpu.NO_ERR))
+    (hW1 : WF s1) (hl1 : s1.lastMsgId = nextId t)
+    (seg : Nat) (tr : Tr) (rep div : Nat) (samples : Array Nat) (H : ModOK s1 seg tr rep div samples)
+    (g1 : validateTransitionMode s1.modSegment seg rep (trMode tr) = false)
+    (g2 : validateSilencerSettings s1 (sel s1.stmDiv s1.stmSegment) div = false) :
+    ∃ t' s', Sends2 dg1 (.modulation seg tr rep div samples) s t t' s' ∧ WF s' ∧ TxOK t' ∧ Fresh s' t' ∧
+      ModHeld s1 s' seg tr rep div samples :=
+  mod_roundtrip_slot2' s t ht hf dg1 o1' b1 k s1 hnd1 hp1 hd1 hk hh1 hW1 hl1 seg tr rep div samples H g1 g2
+
+/-- **Gain round trip in the second slot**, every device size that leaves room (`k + 4 + 2·numTr ≤ 622`):
+the same `GainHeld` / `GainCpu` / request facts as `gain_roundtrip`, relative to the state `s1` the slot-1
+operation leaves -/
+theorem gain_roundtrip_slot2 (s : State) (t : Tx) (ht : TxOK t) (hf : Fresh s t)
+    (dg1 : Dg) (o1' : Op) (b1 : Array Nat) (k : Nat) (s1 : State)
+    (hnd1 : (Op.ofDg dg1).done = false)
+    (hp1 : (Op.ofDg dg1).pack s.numTr t.payload 0 = .ok (o1', b1, k)) (hd1 : o1'.done = true)
+    (hk : 0 < k ∧ k % 2 = 0 ∧ k + 4 + 2 * s.numTr ≤ 622)
+    (hh1 : ∀ b', Keeps k b1 b' → handlePayload (pre s (nextId t)) b' = .ok (s1, Cpu.NO_ERR))
+    (hW1 : WF s1) (hl1 : s1.lastMsgId = nextId t) (hnt : s1.numTr = s.numTr)
+    (seg : Nat) (hseg : seg ≤ 1) (tr : Tr) (htr : tr = none ∨ ∃ v, tr = some (Drv.TRANSITION_MODE_IMMEDIATE, v))
+    (drives : Array Nat) (hdr : ∀ i, rd drives i < 65536) :
+    ∃ t' s', Sends2 dg1 (.gain seg tr drives) s t t' s' ∧ WF s' ∧ TxOK t' ∧ Fresh s' t' ∧
+      GainHeld s1 s' seg drives ∧ GainCpu s1 s' seg ∧
+      (tr = none → s'.stmSwap = s1.stmSwap ∧ Obs.reqStmSeg s' = Obs.reqStmSeg s1 ∧
+        Obs.stmTransition s' = Obs.stmTransition s1 ∧ s'.stmSegment = s1.stmSegment) ∧
+      (tr.isSome = true → Obs.reqStmSeg s' = .ok seg ∧ Obs.stmTransition s' = .ok .syncIdx ∧
+        Obs.currentStmSeg s' = seg ∧ s'.stmSegment = seg ∧
+        SwapSet s1.stmSwap s'.stmSwap s1.dcSysTime 0xFFFF 0xFFFF 1 seg .syncIdx) :=
+  gain_roundtrip_slot2' s t ht hf dg1 o1' b1 k s1 hnd1 hp1 hd1 hk hh1 hW1 hl1 hnt seg hseg tr htr drives hdr
+
+/-! ### transition request fields
+
+`modHeld_spelled_out`, `fociHeld_spelled_out`, `gHeld_spelled_out` and `gain_roundtrip` already state, for every
+transition the firmware can decode (`ValidTr`: SyncIdx, SysTime t, GPIO g, Ext, Immediate): request segment
+register = target segment, transition mode/value registers = the user's, loop-count and division registers of
+the segment = the user's, swap chain `set` with exactly these; and for `none`: request/transition registers
+and swap chain untouched.  The guard `g1` of those theorems is satisfiable exactly as follows. -/
+
+/-- **which (segment, loop count, transition) combinations the firmware accepts** (`validate_transition_mode`
+returns "invalid" = `true`): no transition — always; to the *current* segment or with an infinite loop count —
+every mode but SyncIdx/SysTime/GPIO (i.e. Immediate, Ext); to the other segment with a finite loop count —
+every mode but Immediate/Ext (i.e. SyncIdx, SysTime, GPIO) -/
+theorem transition_acceptance_table (cur seg rep m : Nat) :
+    validateTransitionMode cur seg rep m = false ↔
+      (m = Cpu.TRANSITION_MODE_NONE ∨
+       ((cur = seg ∨ rep = 0xFFFF) ∧ m ≠ Cpu.TRANSITION_MODE_SYNC_IDX ∧ m ≠ Cpu.TRANSITION_MODE_SYS_TIME ∧
+          m ≠ Cpu.TRANSITION_MODE_GPIO) ∨
+       (cur ≠ seg ∧ rep ≠ 0xFFFF ∧ m ≠ Cpu.TRANSITION_MODE_IMMEDIATE ∧ m ≠ Cpu.TRANSITION_MODE_EXT)) :=
+  transition_acceptance cur seg rep m
+
+/-- ForceFan (2 bytes) is such a slot-1 operation, from every well-formed state -/
+theorem forceFan_is_slot1_operation (s : State) (t : Tx) (v : Bool) (hWF : WF s) (ht : TxOK t) :
+    (Op.ofDg (.forceFan v)).done = false ∧
+    (Op.ofDg (.forceFan v)).pack s.numTr t.payload 0 =
+      .ok ({ dg := .forceFan v, sent := 0, done := true }, tagValue t.payload 0 Drv.TAG_ForceFan (if v then 1 else 0), 2) ∧
+    (∀ b', Keeps 2 (tagValue t.payload 0 Drv.TAG_ForceFan (if v then 1 else 0)) b' →
+      handlePayload (pre s (nextId t)) b' = .ok (fanState s (nextId t) v, Cpu.NO_ERR)) ∧
+    WF (fanState s (nextId t) v) ∧ (fanState s (nextId t) v).lastMsgId = nextId t := slot1_forceFan s t v hWF ht
+
+/-! ### GainSTM modes: what "exactly the content" means -/
+
+/-- the drive word the FPGA holds for a user drive word `w = phase | intensity << 8` (`w < 65536`):
+PhaseIntensityFull keeps it; PhaseFull keeps the phase and forces intensity 0xFF; PhaseHalf forces intensity
+0xFF and keeps the top four bits of the phase, replicated into the low four (so a phase whose two nibbles
+are equal is kept exactly, and the error is otherwise at most 15/256 of a turn) -/
+theorem expDrive_meaning (w : Nat) :
+    expDrive 0 w = w ∧
+    (expDrive 1 w % 256 = w % 256 ∧ expDrive 1 w / 256 = 0xFF) ∧
+    (expDrive 2 w / 256 = 0xFF ∧ expDrive 2 w % 256 / 16 = w % 256 / 16 ∧ expDrive 2 w % 256 % 16 = w % 256 / 16 ∧
+      (w % 256 % 17 = 0 → expDrive 2 w % 256 = w % 256) ∧
+      (expDrive 2 w % 256 : Int) - (w % 256 : Nat) ≤ 15 ∧ ((w % 256 : Nat) : Int) - (expDrive 2 w % 256 : Nat) ≤ 15) := by
+  obtain ⟨e0, e1, e2⟩ := expDrive_modes w
+  rw [e0, e1, e2]
+  generalize hp : w % 256 = p
+  have hp2 : p < 256 := by omega
+  generalize hq : p / 16 = q
+  have hq2 : q ≤ 15 ∧ 16 * q ≤ p ∧ p < 16 * q + 16 := by omega
+  have k1 : (0xFF00 + q * 0x11) / 256 = 255 := by omega
+  have k2 : (0xFF00 + q * 0x11) % 256 = 17 * q := by omega
+  have k3 : (0xFF00 + p) / 256 = 255 := by omega
+  have k4 : (0xFF00 + p) % 256 = p := by omega
+  rw [k1, k2, k3, k4]
+  refine ⟨rfl, ⟨rfl, rfl⟩, rfl, by omega, by omega, by omega, by omega, by omega⟩
+
+/-- **GainSTM at the read-back level, all three modes, all sizes**: after the round trip `drives_at(seg, idx)`
+returns, for every pattern and transducer, the mode's drive word with the stored phase correction added —
+for PhaseIntensityFull that is the user's drive itself -/
+theorem gainStm_drives_readback {s0 s' : State} {seg : Nat} {tr : Tr} {rep div mode : Nat} {patterns : Array (Array Nat)}
+    (h : GHeld s0 s' seg tr rep div mode patterns) (hW : WF s') (hnt : s'.numTr = s0.numTr) (hP : patterns.size ≤ 1024)
+    (hdr : ∀ idx i, rd (patAt patterns idx) i < 65536) (idx : Nat) (hidx : idx < patterns.size) :
+    Obs.drivesAt s' seg idx = .ok ((Array.range s0.numTr).map fun i =>
+      driveWithCorr (expDrive mode (rd (patAt patterns idx) i)) (Obs.phaseCorrAt s' i)) :=
+  gstm_drivesAt h hW hnt hP hdr idx hidx
+
 /-! ### 1..n devices -/
 
 /-- **device independence**: the controller's lockstep rounds (one frame per device per round, devices
@@ -621,5 +862,112 @@ example : ∃ t' s', Sends (.gainStm 2 0 none 0xFFFF 4000 (Array.replicate 7 (Ar
   refine ⟨t', s', h, ?_⟩
   have := h5.hcycle
   simpa using this
+
+/-! ### non-vacuity of the footprint, slot-2, mode and transition theorems -/
+
+/-- dirty prior state: a Gain to segment 1 with transition from the power-on-like state, then a 1000-sample
+modulation to segment 1; the modulation is accepted and the whole STM side — in particular the drives of the
+gain just written — reads back unchanged -/
+example : ∃ t1 s1 t2 s2, Sends (.gain 1 (some (Drv.TRANSITION_MODE_IMMEDIATE, 0)) (Array.replicate 249 0x80FF)) exState exTx t1 s1 ∧
+    Sends (.modulation 1 (some (0, 0)) 3 5120 (Array.replicate 1000 7)) s1 t1 t2 s2 ∧
+    Obs.modBuffer s2 1 = .ok (Array.replicate 1000 7) ∧ StmSame s1 s2 ∧ RestSame s1 s2 ∧
+    (∀ idx, Obs.drivesAt s2 1 idx = Obs.drivesAt s1 1 idx) ∧ Obs.stmCycle s2 1 = 1 := by
+  obtain ⟨t1, s1, hS1, hW1, hT1, hF1, hH, hC, _, hreq⟩ := gain_roundtrip exState exTx WF_exState TxOK_exTx Fresh_ex 1 (by decide)
+    (some (Drv.TRANSITION_MODE_IMMEDIATE, 0)) (Or.inr ⟨0, rfl⟩) (Array.replicate 249 0x80FF)
+    (by intro i; unfold rd; by_cases h : i < 249 <;> simp [h])
+  obtain ⟨_, _, _, hseg1, _⟩ := hreq rfl
+  have H : ModOK s1 1 (some (0, 0)) 3 5120 (Array.replicate 1000 7) := by
+    refine ⟨by decide, by simp, by simp, ?_, by decide, by decide, ?_⟩
+    · intro i; unfold rd; by_cases h : i < 1000 <;> simp [h]
+    · intro m v h
+      simp only [Option.some.injEq, Prod.mk.injEq] at h
+      obtain ⟨rfl, rfl⟩ := h
+      exact ⟨Or.inl rfl, by decide, fun hh => absurd hh.1 (by decide)⟩
+  have g1 : validateTransitionMode s1.modSegment 1 3 (trMode (some (0, 0))) = false := by rw [hC.modSegment]; decide
+  have g2 : validateSilencerSettings s1 (sel s1.stmDiv s1.stmSegment) 5120 = false := by
+    unfold validateSilencerSettings; rw [hseg1, hC.div, hC.strict, hC.minDivI, hC.minDivP]; decide
+  obtain ⟨t2, s2, hS2, _, _, _, hM⟩ := mod_roundtrip s1 t1 hW1 hT1 hF1 1 (some (0, 0)) 3 5120 (Array.replicate 1000 7) H g1 g2
+  obtain ⟨hA, hB⟩ := mod_touches_only_modulation s1 t1 t2 s2 hW1 hT1 1 (some (0, 0)) 3 5120 (Array.replicate 1000 7) hS2
+  obtain ⟨_, hO, _⟩ := stmSame_spelled_out hA
+  obtain ⟨hc, _, _, _, _, _, hd⟩ := hO 1 (by decide)
+  exact ⟨t1, s1, t2, s2, hS1, hS2, hM.buffer, hA, hB, hd, by rw [hc]; exact hH.cycle⟩
+
+/-- dirty prior state on the STM side: a 7-pattern PhaseHalf GainSTM to segment 0, then a 300×3 FociSTM to
+segment 1; the modulation side is untouched by both, segment 0 keeps its 7 patterns, its sound speed and
+focus count registers, and `drives_at(0, 3)` of the GainSTM reads back the PhaseHalf drive words -/
+example : ∃ t1 s1 t2 s2,
+    Sends (.gainStm 2 0 none 0xFFFF 4000 (Array.replicate 7 (Array.replicate 249 0x1234))) exState exTx t1 s1 ∧
+    Sends (.fociStm 3 1 none 5 512 340 (Array.replicate 900 12345)) s1 t1 t2 s2 ∧
+    ModSame exState s1 ∧ ModSame s1 s2 ∧ RestSame s1 s2 ∧ Obs.stmCycle s2 0 = 7 ∧ Obs.stmCycle s2 1 = 300 ∧
+    Obs.soundSpeed s2 0 = Obs.soundSpeed s1 0 ∧ Obs.numFoci s2 0 = Obs.numFoci s1 0 ∧
+    Obs.drivesAt s1 0 3 = .ok ((Array.range 249).map fun i => driveWithCorr (expDrive 2 0x1234) (Obs.phaseCorrAt s1 i)) := by
+  have hdr : ∀ idx i, rd (patAt (Array.replicate 7 (Array.replicate 249 0x1234)) idx) i < 65536 := by
+    intro idx i
+    unfold patAt rd
+    by_cases h : idx < 7
+    · simp [h]; by_cases h2 : i < 249 <;> simp [h2]
+    · simp [h]; show (#[] : Array Nat)[i]?.getD 0 < 65536; simp
+  have HG : GOK exState 2 0 none 0xFFFF 4000 (Array.replicate 7 (Array.replicate 249 0x1234)) :=
+    ⟨by decide, by decide, by simp, hdr, by decide, by decide, by intro m v h; simp at h⟩
+  obtain ⟨t1, s1, hS1, hW1, hT1, hF1, hG⟩ := gainStm_roundtrip exState exTx WF_exState TxOK_exTx Fresh_ex 2 0 none 0xFFFF 4000
+    (Array.replicate 7 (Array.replicate 249 0x1234)) HG (by decide) (by decide)
+  obtain ⟨hA1, hB1, _⟩ := gainStm_touches_only_stm exState exTx t1 s1 WF_exState TxOK_exTx 2 0 none 0xFFFF 4000 _ hS1
+  have HF : FociOK s1 3 1 none 5 512 340 (Array.replicate 900 12345) 300 := by
+    refine ⟨by decide, by decide, by simp, by decide, ?_, by decide, by decide, by decide, by intro m v h; simp at h⟩
+    intro i; unfold rd; by_cases h : i < 900 <;> simp [h]
+  have g2 : validateSilencerSettings s1 512 (sel s1.modDiv s1.modSegment) = false := by
+    unfold validateSilencerSettings
+    rw [hA1.cpu.1, hA1.cpu.2.2, hB1.cpu.1, hB1.cpu.2.1, hB1.cpu.2.2.1]; decide
+  obtain ⟨t2, s2, hS2, _, _, _, hF⟩ := fociStm_roundtrip s1 t1 hW1 hT1 hF1 3 1 none 5 512 340 (Array.replicate 900 12345) 300 HF
+    (by unfold validateTransitionMode trMode; rfl) g2
+  obtain ⟨hA2, hB2, hss, hnf⟩ := fociStm_touches_only_stm s1 t1 t2 s2 hW1 hT1 3 1 (by decide) none 5 512 340 _ hS2
+  have hrd := gainStm_drives_readback hG hW1 hB1.cpu.2.2.2.2.2.2.2.1 (by simp) hdr 3 (by simp)
+  refine ⟨t1, s1, t2, s2, hS1, hS2, hA1, hA2, hB2, ?_, hF.hcycle, hss, hnf, ?_⟩
+  · have := hF.otherRegs.2.2.1
+    rw [show 1 - 1 = 0 from rfl] at this
+    rw [this]; simpa using hG.hcycle
+  · rw [hrd]
+    have e : patAt (Array.replicate 7 (Array.replicate 249 0x1234)) 3 = Array.replicate 249 0x1234 := by
+      unfold patAt; simp
+    rw [e]
+    refine congrArg Except.ok ?_
+    refine range_map_congr 249 _ _ ?_
+    intro i hi
+    have e2 : rd (Array.replicate 249 0x1234) i = 0x1234 := by
+      unfold rd; rw [Array.getElem?_eq_getElem (by simpa using hi)]; simp
+    rw [e2]
+
+/-- second slot: ForceFan (2 bytes) in slot 1 and a 1000-sample modulation (first chunk at offset 2, then
+618 + 128 in slot 1) to segment 1 with a SyncIdx transition; then the same with a Gain of 249 transducers -/
+example : ∃ t' s', Sends2 (.forceFan true) (.modulation 1 (some (0, 0)) 3 5120 (Array.replicate 1000 7)) exState exTx t' s' ∧
+    Obs.modBuffer s' 1 = .ok (Array.replicate 1000 7) ∧ Obs.reqModSeg s' = .ok 1 ∧ Obs.modCycle s' 1 = 1000 := by
+  obtain ⟨h1, h2, h3, h4, h5⟩ := forceFan_is_slot1_operation exState exTx true WF_exState TxOK_exTx
+  have H : ModOK (fanState exState (nextId exTx) true) 1 (some (0, 0)) 3 5120 (Array.replicate 1000 7) := by
+    refine ⟨by decide, by simp, by simp, ?_, by decide, by decide, ?_⟩
+    · intro i; unfold rd; by_cases h : i < 1000 <;> simp [h]
+    · intro m v h
+      simp only [Option.some.injEq, Prod.mk.injEq] at h
+      obtain ⟨rfl, rfl⟩ := h
+      exact ⟨Or.inl rfl, by decide, by decide⟩
+  obtain ⟨t', s', hS, _, _, _, hM⟩ := mod_roundtrip_slot2 exState exTx TxOK_exTx Fresh_ex (.forceFan true) _ _ 2 _ h1 h2 rfl
+    (by decide) h3 h4 h5 1 (some (0, 0)) 3 5120 (Array.replicate 1000 7) H (by decide) (by decide)
+  exact ⟨t', s', hS, hM.buffer, hM.req.1, by simpa using hM.hcycle⟩
+
+example : ∃ t' s', Sends2 (.forceFan true) (.gain 1 none (Array.replicate 249 0x80FF)) exState exTx t' s' ∧
+    Obs.stmCycle s' 1 = 1 := by
+  obtain ⟨h1, h2, h3, h4, h5⟩ := forceFan_is_slot1_operation exState exTx true WF_exState TxOK_exTx
+  obtain ⟨t', s', hS, _, _, _, hH, _⟩ := gain_roundtrip_slot2 exState exTx TxOK_exTx Fresh_ex (.forceFan true) _ _ 2 _ h1 h2 rfl
+    (by decide) h3 h4 h5 rfl 1 (by decide) none (Or.inl rfl) (Array.replicate 249 0x80FF)
+    (by intro i; unfold rd; by_cases h : i < 249 <;> simp [h])
+  exact ⟨t', s', hS, hH.cycle⟩
+
+/-- every transition mode has an accepted instance: SyncIdx / SysTime / GPIO to the other segment with a finite
+loop count, Ext / Immediate with an infinite one (or to the current segment), none always -/
+example : validateTransitionMode 0 1 3 Cpu.TRANSITION_MODE_SYNC_IDX = false ∧
+    validateTransitionMode 0 1 3 Cpu.TRANSITION_MODE_SYS_TIME = false ∧
+    validateTransitionMode 0 1 3 Cpu.TRANSITION_MODE_GPIO = false ∧
+    validateTransitionMode 0 1 0xFFFF Cpu.TRANSITION_MODE_EXT = false ∧
+    validateTransitionMode 0 0 3 Cpu.TRANSITION_MODE_IMMEDIATE = false ∧
+    validateTransitionMode 0 1 3 Cpu.TRANSITION_MODE_NONE = false := by decide
 
 end Autd3.C01
